@@ -8,6 +8,5 @@ Open Scope Z_scope.
 Definition more_core_prog : list stmt :=
   [ SAssign VPages (EAdd (EInt 1) (ETruncMulRat (EV VPages) 13 10));
     SAssign VCount (EDiv (EMul (EV VPages) EPagesize) ESizeofBlock);
-    SIf CGt (EV VPages) (EInt 64) VPages (EInt 64);
     SMmap (EMul (EV VPages) EPagesize);
     SThread (EV VCount) ].
